@@ -58,6 +58,49 @@ pub fn observe(ctx: &Ctx, st: &mut Stats, job: &Job) {
     let v = exp.version;
     let map = region_map(v);
     let n = map.size;
+    // the masking function itself is public (`fast_qr::datamasking::mask`, doc-hidden): half of the groups first
+    // call it directly, on this thread, on an all-data grid of the same size (as the repository's own mask tests do
+    // with 10x10 grids): every module of the grid must then equal the ISO condition, nothing beyond size^2 may
+    // change, and applying the same mask again must restore the grid. The builds below follow on the same thread.
+    if job.seed & 1 == 0 {
+        let k = (job.seed >> 8) as usize % 8;
+        let probe = adapter::guarded(|| {
+            let mut g = fast_qr::QRCode::default(n);
+            fast_qr::datamasking::mask(&mut g, adapter::MASKS[k]);
+            let once: Vec<u8> = g.data.iter().map(|m| m.0).collect();
+            fast_qr::datamasking::mask(&mut g, adapter::MASKS[k]);
+            let twice_clean = g.data.iter().all(|m| m.0 == fast_qr::Module::data(fast_qr::Module::LIGHT).0);
+            (once, twice_clean)
+        });
+        match probe {
+            Err(p) => {
+                flag(st, ID, ("direct-mask-panic".into(), format!("datamasking::mask on an all-data {n}x{n} grid panicked: {p}")), job, false);
+                return;
+            }
+            Ok((once, twice_clean)) => {
+                let light = fast_qr::Module::data(fast_qr::Module::LIGHT).0;
+                let dark = fast_qr::Module::data(fast_qr::Module::DARK).0;
+                for r in 0..n {
+                    for c in 0..n {
+                        let want = if mask_bit(k, r, c) { dark } else { light };
+                        if once[r * n + c] != want {
+                            flag(st, ID, ("direct-mask-pattern".into(), format!("mask {k} applied directly to an all-data {n}x{n} grid: module (row {r}, col {c}) is {:#04x}, the ISO condition gives {:#04x}", once[r * n + c], want)), job, false);
+                            return;
+                        }
+                    }
+                }
+                if let Some(i) = once[n * n..].iter().position(|&b| b != light) {
+                    flag(st, ID, ("direct-mask-tail".into(), format!("mask {k} applied directly to an all-data {n}x{n} grid changed backing element {} beyond size^2", n * n + i)), job, false);
+                    return;
+                }
+                if !twice_clean {
+                    flag(st, ID, ("direct-mask-not-involutive".into(), format!("mask {k} applied twice to an all-data {n}x{n} grid does not restore it")), job, false);
+                    return;
+                }
+                st.count("direct_mask_calls_checked", 2);
+            }
+        }
+    }
     let mut syms: Vec<Matrix> = Vec::with_capacity(8);
     for mask in 0..8 {
         let mut cfg = base.clone();
@@ -177,7 +220,7 @@ pub fn run(ctx: &Ctx) -> Report {
     let st = pool::run(&jobs, ctx.remaining(), |st, job, _| observe(ctx, st, job));
     let mut rep = Report::new(
         st,
-        "jobs = all 40 versions x levels (2 rotating in quick, 4 in thorough) x payloads {capacity-filling, empty, random}; each job builds the same input with the eight forced masks and automatically; all 28 pairs are compared at every coordinate (data modules must differ exactly where ISO Table 10 conditions disagree, non-format function modules never), the eight symbols un-masked by the pattern named in their own format information must coincide, and the automatic build must equal the forced build of the mask it reports; distinct key = (options, len, payload hash) per group; every group non-trivial",
+        "(half of the groups start with a direct call of the public datamasking::mask on an all-data grid of the same size, checked against the ISO condition at every coordinate, before their builds run on the same thread) jobs = all 40 versions x levels (2 rotating in quick, 4 in thorough) x payloads {capacity-filling, empty, random}; each job builds the same input with the eight forced masks and automatically; all 28 pairs are compared at every coordinate (data modules must differ exactly where ISO Table 10 conditions disagree, non-format function modules never), the eight symbols un-masked by the pattern named in their own format information must coincide, and the automatic build must equal the forced build of the mask it reports; distinct key = (options, len, payload hash) per group; every group non-trivial",
     );
     rep.expected_sets = vec![("versions", 40), ("version_pair", 40 * 28), ("auto_masks_seen", 8)];
     rep.required_sets = vec![("versions", 40), ("version_pair", 40 * 28)];
